@@ -362,6 +362,9 @@ func checkIntrinsicArms(c *Ctx, r *Rec, cr *collRoles, rankD *ast.FuncDecl, rule
 							if isw, _ := kindClauses(info, d); isw != nil && d != rankD {
 								intrinsicFD = d
 								admitted = rc[i]
+							} else if tk := kindTable(c, info, d); tk != nil && d != rankD {
+								intrinsicFD = d
+								admitted = rc[i]
 							}
 						}
 					}
@@ -374,12 +377,18 @@ func checkIntrinsicArms(c *Ctx, r *Rec, cr *collRoles, rankD *ast.FuncDecl, rule
 	} else {
 		isw, icl := kindClauses(info, intrinsicFD)
 		ik := flatten(icl)
+		if isw == nil {
+			ik = kindTable(c, info, intrinsicFD) // a lookup table from kinds to leaf rankers
+		}
 		r.check(strings.Join(ik, ",") == strings.Join(admitted, ","), "D4-dispatch-agreement", "agent."+cr.n.Obj().Name()+"/intrinsic-kinds", c.pos(intrinsicFD.Pos()),
 			fmt.Sprintf("the %d intrinsic kinds admitted by the dispatcher are exactly the arms of the intrinsic ranker", len(ik)),
 			fmt.Sprintf("admitted but without an arm (falls into the panic default): %v; arm without admission: %v", diff(admitted, ik), diff(ik, admitted)))
 		// arms: same accessor on both operands, passed in order
 		params := paramObjs(info, intrinsicFD)
 		mir := newMirror(info, intrinsicFD, params[0], params[1])
+		if isw == nil {
+			return // the arms are entries of a table: not followed
+		}
 		for _, cl := range isw.Body.List {
 			cc := cl.(*ast.CaseClause)
 			if cc.List == nil {
@@ -762,4 +771,52 @@ func rankLeaves(c *Ctx, cr *collRoles) []rankLeaf {
 		return out[i].fd.Name.Name < out[j].fd.Name.Name
 	})
 	return out
+}
+
+// kindTable: fd looks the kind of an operand up in a package-level map whose keys are
+// reflect.Kind constants (T[first.Kind()]); returns the sorted key names, nil when there is none.
+func kindTable(c *Ctx, info *types.Info, fd *ast.FuncDecl) []string {
+	var out []string
+	ast.Inspect(fd.Body, func(x ast.Node) bool {
+		ix, ok := x.(*ast.IndexExpr)
+		if !ok || out != nil {
+			return true
+		}
+		idx := ast.Unparen(ix.Index)
+		if id, isID := idx.(*ast.Ident); isID {
+			if init := initOfIn(info, fd.Body, id); init != nil {
+				idx = ast.Unparen(init)
+			}
+		}
+		if _, mname, _, ok := methodCall(idx); !ok || mname != "Kind" {
+			return true
+		}
+		tv, ok := info.Uses[identOf(ix.X)].(*types.Var)
+		if !ok || tv.Pkg() == nil || tv.Parent() != tv.Pkg().Scope() {
+			return true
+		}
+		lit := c.packageVarLiteral(tv)
+		if lit == nil {
+			return true
+		}
+		for _, el := range lit.Elts {
+			kv, ok := el.(*ast.KeyValueExpr)
+			if !ok {
+				continue
+			}
+			if se, ok := ast.Unparen(kv.Key).(*ast.SelectorExpr); ok {
+				out = append(out, se.Sel.Name)
+			} else {
+				out = append(out, exprStr(kv.Key))
+			}
+		}
+		sort.Strings(out)
+		return true
+	})
+	return out
+}
+
+func identOf(e ast.Expr) *ast.Ident {
+	id, _ := ast.Unparen(e).(*ast.Ident)
+	return id
 }
